@@ -13,8 +13,10 @@ import (
 
 const deviceGrant = "urn:ietf:params:oauth:grant-type:device_code"
 
-func newDeviceEnv(tx bool) *env {
-	return newEnvX("device", tx, func(cfg *fosite.Config) {
+func newDeviceEnv(tx bool) *env { return newDeviceEnvNamed("device", tx) }
+
+func newDeviceEnvNamed(name string, tx bool) *env {
+	return newEnvX(name, tx, func(cfg *fosite.Config) {
 		cfg.DeviceVerificationURL = "https://as.example/device"
 	}, []compose.Factory{compose.RFC8628DeviceFactory, compose.RFC8628DeviceAuthorizationTokenFactory})
 }
